@@ -48,6 +48,26 @@ def zerosLike (l : List α) : List α := l.map (fun _ => 0)
 /-- `{k: v * 0}` -/
 def timesZero (l : List α) : List α := l.map (fun v => v * 0)
 
+/-- the components of `FieldState` (fdtd/container.py): every one of them is per-time-step state.  `psi_E/psi_H` are the
+CPML auxiliaries, `dispersive_P_curr/_prev` the ADE polarisation at the current and the previous step (the history the
+recurrence `P_next = c1·P_curr + c2·P_prev + c3·E` reads). -/
+structure FieldState (α : Type) where
+  E : List α
+  H : List α
+  psiE : List α
+  psiH : List α
+  pCurr : List α
+  pPrev : List α
+  deriving Repr, DecidableEq
+
+/-- the pytree leaves of a FieldState in flattening order — what `Container.fields` holds -/
+def FieldState.leaves (f : FieldState α) : List α := f.E ++ f.H ++ f.psiE ++ f.psiH ++ f.pCurr ++ f.pPrev
+
+/-- `jax.tree.map(jnp.zeros_like, self.fields)`: ONE map over every component, the polarisation history included -/
+def FieldState.zeroAll (f : FieldState α) : FieldState α :=
+  { E := zerosLike f.E, H := zerosLike f.H, psiE := zerosLike f.psiE, psiH := zerosLike f.psiH,
+    pCurr := zerosLike f.pCurr, pPrev := zerosLike f.pPrev }
+
 /-- `ArrayContainer.reset(reset_detector_states, reset_recording_state)` -/
 def Container.reset (c : Container α) (resetDet : Bool := true) (resetRec : Bool := false) : Container α :=
   { fields := zerosLike c.fields
@@ -137,6 +157,8 @@ def resetOp (asFound : Bool) : List String → String
                                  detector rows hold earlier values; each `row` token lists the steps that write the row
                                  (`3`, `0,3,6`, `-` for none): `final t | tag per row` with z = exactly zero,
                                  k<i> = the earlier value of row i, r = written during the call
+  `resetfs nE nH nPsiE nPsiH nPcurr nPprev v…` → the six FieldState components after reset, one group each, and
+                                 whether Container.reset on their concatenated leaves is all +0.0
   `resetasfound …`             → same arguments as `reset`, the pinned tree's `v*0` behaviour
   `reset rd rr nF nD nR nM v…` → Container.reset with flags rd, rr on nF field, nD detector, nR recording
                                  (nR = 0 with rr… see below) and nM material values (binary64 bit patterns):
@@ -164,6 +186,19 @@ def handle : List String → String
       let c : Container Tag := { fields := [Tag.kept 0], det := (List.range rows.length).map Tag.kept, recording := none, mat := [] }
       let r := customForwardRD T (rs == 1) (rd == 1) (fun x => x.reset) (recordBody rows) start stop c
       s!"{r.1} | {joinSp (r.2.det.map showTag)}"
+    | _, _ => "bad-op"
+  | "resetfs" :: nE :: nH :: nPe :: nPh :: nPc :: nPp :: vs =>
+    match natsOf [nE, nH, nPe, nPh, nPc, nPp], floatsOfHex vs with
+    | some [nE, nH, nPe, nPh, nPc, nPp], some vs =>
+      if vs.length ≠ nE + nH + nPe + nPh + nPc + nPp then "bad-op" else
+      let f : FieldState Float :=
+        { E := vs.take nE, H := (vs.drop nE).take nH, psiE := (vs.drop (nE + nH)).take nPe,
+          psiH := (vs.drop (nE + nH + nPe)).take nPh, pCurr := (vs.drop (nE + nH + nPe + nPh)).take nPc,
+          pPrev := vs.drop (nE + nH + nPe + nPh + nPc) }
+      let c : Container Float := { fields := f.leaves, det := [], recording := none, mat := [] }
+      let z := f.zeroAll
+      let viaContainer := if c.reset.fields.all (fun x => x.toBits == 0) then "1" else "0"
+      s!"{showFloats z.E} | {showFloats z.H} | {showFloats z.psiE} | {showFloats z.psiH} | {showFloats z.pCurr} | {showFloats z.pPrev} | {viaContainer}"
     | _, _ => "bad-op"
   | "reset" :: rest => resetOp false rest
   | "resetasfound" :: rest => resetOp true rest
